@@ -1324,6 +1324,9 @@ def translate(repo):
                     rf = R.run()
                 except Unrecognised as e:
                     e.reason = "read(): " + e.reason
+                    if ".peek(" in src(ms["read"]):
+                        e.reason += " [read() peeks the next tag itself and looks the child's class up by it: the " \
+                                    "child may carry any tag the factory knows, no fixed field list describes that]"
                     raise
                 try:
                     W = Writer(ms["write"], oracle, node)
